@@ -85,6 +85,7 @@ fn check_input(dec: Dec, fam: Fam, prog: &[u8], wit: &[u8], jets: &JetCodes, out
 fn run(ctx: &Ctx, out: &mut Out) {
     leg_bytes(ctx, out);
     leg_witness_bytes(ctx, out);
+    leg_witness_typed(ctx, out);
     leg_deviations(ctx, out);
     leg_magnitude(ctx, out);
 }
@@ -205,6 +206,70 @@ fn leg_witness_bytes(ctx: &Ctx, out: &mut Out) {
                     }
                     base += chunk;
                 }
+            }
+        }
+    }
+}
+
+/// One witness node of every small type (and of every type whose padding flag hangs on one child),
+/// its type forced by a consumer that destructs it; every witness byte string up to 2 bytes.
+/// Beyond "accepted => re-encodes to the input", the accepted set must be exactly the reference's
+/// compact encodings of the type's values, zero-padded to a byte.
+fn leg_witness_typed(ctx: &Ctx, out: &mut Out) {
+    use crate::props::c12::{host_core as host, Pos};
+    use crate::reference::tyval::*;
+    use std::collections::BTreeSet;
+    let leg = "witness-typed";
+    let jets = JetCodes::new(Fam::Core);
+    let mut tys = types_upto(ctx.tier.pick(3, 4));
+    tys.extend(padding_flag_family(ctx.tier.pick(6, 7)));
+    let maxlen = 2usize;
+    for t in tys {
+        if !ctx.mine() {
+            continue;
+        }
+        if t.width() > 8 * maxlen as u128 {
+            out.cap(format!("witness-typed: type {t} is wider than {maxlen} bytes: skipped"));
+            continue;
+        }
+        let zero = RV::zero(&t).to_value(&t);
+        let r = guard(|| types::Context::with_context(|c| host(&c, &t, Pos::Executed, Some(zero.shallow_clone())).finalize_unpruned().map(|r| r.to_vec_with_witness().0)));
+        let pb = match r {
+            Ok(Ok(pb)) => pb,
+            Ok(Err(e)) => {
+                out.violation("hosts", leg, format!("witness : 1 -> {t}"), format!("host does not finalise: {e}"));
+                continue;
+            }
+            Err(p) => {
+                out.violation(&panic_class(&p), leg, format!("witness : 1 -> {t}"), p);
+                continue;
+            }
+        };
+        let canonical: BTreeSet<Vec<u8>> = values_of(&t, 1 << 16).0.iter().map(|v| bits_to_bytes(&v.compact())).collect();
+        for len in 0..=maxlen {
+            for x in 0..(1u64 << (8 * len)) {
+                let w: Vec<u8> = (0..len).map(|i| (x >> (8 * (len - 1 - i))) as u8).collect();
+                let note = format!(" [witness : 1 -> {t}]");
+                let label = || format!("Redeem/core prog={} wit={}{}", hex(&pb), hex(&w), note);
+                if !ctx.begin(leg, &label) {
+                    continue;
+                }
+                out.evaluations += 1;
+                out.states += 1;
+                out.nontrivial += 1;
+                let want = canonical.contains(&w);
+                match guard(|| check_input(Dec::Redeem, Fam::Core, &pb, &w, &jets, out)) {
+                    Ok(Ok(acc)) if acc == want => {
+                        if acc {
+                            out.sample(leg, || (label(), "accepted, re-encodes to the input, and is the reference's compact encoding of a value of the type".into()));
+                        }
+                    }
+                    Ok(Ok(true)) => out.violation("canon:witness-noncanonical-accepted", leg, label(), "accepted, but is not the compact encoding of any value of the witness type".into()),
+                    Ok(Ok(false)) => out.violation("canon:witness-canonical-rejected", leg, label(), "the compact encoding of a value of the witness type is rejected".into()),
+                    Ok(Err((c, d))) => out.violation(&c, leg, label(), d),
+                    Err(p) => out.violation(&panic_class(&p), leg, label(), p),
+                }
+                ctx.end();
             }
         }
     }
